@@ -22,7 +22,8 @@ Ltac enum x n :=
 (* expose the width facts of an [in_widthb] hypothesis in a form lia reads *)
 Ltac widths H :=
   cbn [groups_ok forallb group_ok sum_widths fwidth fvalue U32 U24 U16 U8 ADDR andb
-       addr_ok is_some] in H.
+       addr_ok is_some] in H;
+  try unfold addr_ok in H.
 
 (* run encoders/decoders on explicit byte lists without touching N arithmetic *)
 Ltac run :=
